@@ -65,12 +65,15 @@ def _paths(t):
         if x[0] == "elem":
             p = path_of(x[1])
             return None if p is None else p + "[*]"
+        if x[0] == "sub":
+            p = path_of(x[1])
+            return None if p is None else "%s[%s]" % (p, show(x[2])[:60])
         return None
 
     def visit(x):
         if not isinstance(x, tuple) or not x:
             return
-        if isinstance(x[0], str) and x[0] in ("sym", "attr", "item"):
+        if isinstance(x[0], str) and x[0] in ("sym", "attr", "item", "sub"):
             p = path_of(x)
             if p is not None:
                 out.add(p)
@@ -127,23 +130,30 @@ def check_module(run, rule, modname, funcs=None, only_funcs=None):
         params = set(f.params())
         for name, (kind, tterm) in sorted(used.items()):
             n_uses += 1
-            stores = [e for e in r.events if e.kind == "store" and e.term[1][0][0] == "sub" and e.term[1][0][1] == tterm]
-            muts = [e for e in r.events if e.kind == "call" and e.term[1][0] == "attr" and e.term[1][1] == tterm
+            def same_table(t):
+                # inside a loop that mutates the table its name is a loop-carried symbol `name@L<k>`: still the same table
+                if t[0] == "sym" and tterm[0] == "sym":
+                    return t[1].split("@")[0] == tterm[1]
+                return t == tterm
+            stores = [e for e in r.events if e.kind == "store" and e.term[1][0][0] in ("sub", "item") and same_table(e.term[1][0][1])]
+            muts = [e for e in r.events if e.kind == "call" and e.term[1][0] == "attr" and same_table(e.term[1][1])
                     and e.term[1][2] in sym.MUTATORS]
             # (a) memo-key completeness
             for e in stores:
-                key = e.term[1][0][2]
+                key = e.term[1][0][2] if e.term[1][0][0] == "sub" else sym.num(e.term[1][0][2])
                 val = e.term[1][1]
                 kp = _paths(key)
                 vp = {p for p in _paths(val) if p.split(".")[0].split("#")[0].split("[")[0].split("@")[0] not in _IGNORE_SYMS}
+                vp = {p for p in vp if not p.split(".")[0].split("#")[0].split("[")[0].startswith("<closure")}
                 # per-instance tables: self is implicitly part of the key
                 if kind == "instance":
                     kp = kp | {"self"}
                 missing = set()
                 for p in vp:
                     root = p.split(".")[0].split("#")[0].split("[")[0]
-                    if root not in params and root not in ("self", "cls"):
-                        continue      # locals, globals, helper functions: not an input of the call
+                    if root not in params and root not in ("self", "cls") and "@" not in root:
+                        continue      # globals, helper functions: not an input of the call (loop-carried locals `v@L` are: they
+                        # stand for values that differ from call to call)
                     if not any(p == q or p.startswith(q + ".") or p.startswith(q + "#") or p.startswith(q + "[") for q in kp):
                         missing.add(p)
                 if missing:
